@@ -57,8 +57,8 @@ class Webhook:
     def notify_add(cls, webhook_id, local_only, methods, queue):
         """Register to notify for webhooks of given type to be sent to queue."""
         if webhook_id not in cls.notify:
-            cls.notify[webhook_id] = set()
             _LOGGER.debug("webhook.notify_add(%s) -> adding webhook listener", webhook_id)
+            # raises if the id is already taken (by another integration): nothing is recorded then
             webhook.async_register(
                 cls.hass,
                 "pyscript",  # DOMAIN
@@ -68,6 +68,7 @@ class Webhook:
                 local_only=local_only,
                 allowed_methods=methods,
             )
+            cls.notify[webhook_id] = set()
             cls.notify_remove[webhook_id] = lambda: webhook.async_unregister(cls.hass, webhook_id)
 
         cls.notify[webhook_id].add(queue)
